@@ -73,6 +73,18 @@ def run_impl(ctx, harness, lines, timeout=3600):
     return out, None
 
 
+def sh_t(cmd, **kw):
+    """vlib.sh for runs of the real tools: a wall-clock timeout is a *result* (exit status -9, which every caller reports as an abort
+    with the input as replay), not an exception of the check"""
+    import subprocess, types
+    try:
+        return vlib.sh(cmd, **kw)
+    except subprocess.TimeoutExpired:
+        text = kw.get("text", not isinstance(kw.get("input"), (bytes, bytearray)))
+        msg = "wall-clock timeout after %s s" % kw.get("timeout")
+        return types.SimpleNamespace(returncode=-9, stdout="" if text else b"", stderr=msg if text else msg.encode())
+
+
 def run_model(ctx, lines):
     """one answer line per script line, or the check infrastructure has failed (never a silent pass through a short zip)"""
     if not lines:
@@ -1540,10 +1552,10 @@ def run_xkey_case(ctx, tools, d, tag, arc):
     cur, tars = arc, []
     for rnd in (1, 2):
         img = d / ("x%s_%d.sqfs" % (tag, rnd))
-        r = vlib.sh([str(tools["tar2sqfs"]), "-q", "-f", "-j", "1", str(img)], input=cur, env=env, timeout=600, text=False)
+        r = sh_t([str(tools["tar2sqfs"]), "-q", "-f", "-j", "1", str(img)], input=cur, env=env, timeout=600, text=False)
         if r.returncode != 0:
             return "tar2sqfs (round %d) exit %d: %s" % (rnd, r.returncode, r.stderr.decode("latin1")[-300:]), []
-        r = vlib.sh([str(tools["sqfs2tar"]), str(img)], env=env, timeout=600, text=False)
+        r = sh_t([str(tools["sqfs2tar"]), str(img)], env=env, timeout=600, text=False)
         try:
             img.unlink()
         except OSError:
@@ -1632,7 +1644,7 @@ def exclude_verdict(ctx, tools, d, tag, arc, pats):
     cmd = [str(tools["tar2sqfs"]), "-q", "-f", "-j", "1"]
     for p in pats:
         cmd += ["-E", p]
-    r = vlib.sh(cmd + [str(img)], input=arc, env=ctx.san_env(), timeout=600, text=False)
+    r = sh_t(cmd + [str(img)], input=arc, env=ctx.san_env(), timeout=600, text=False)
     if r.returncode != 0:
         return "tar2sqfs -E %s fails (exit %d): %s" % (pats, r.returncode, r.stderr.decode("latin1")[-200:]), len(members) - len(kept)
     obs, err = observe_image(ctx, tools, img)
@@ -1649,7 +1661,7 @@ def exclude_verdict(ctx, tools, d, tag, arc, pats):
 
 def noskip_verdict(ctx, tools, d, tag, arc, flags):
     img = d / ("n%s.sqfs" % tag)
-    r = vlib.sh([str(tools["tar2sqfs"]), "-q", "-f", "-j", "1"] + flags + [str(img)], input=arc, env=ctx.san_env(), timeout=600, text=False)
+    r = sh_t([str(tools["tar2sqfs"]), "-q", "-f", "-j", "1"] + flags + [str(img)], input=arc, env=ctx.san_env(), timeout=600, text=False)
     try:
         img.unlink()
     except OSError:
@@ -1671,7 +1683,7 @@ def big_sparse_verdict(ctx, tools, d, tag, dialect, salt=0):
     arc = sparse_member(random.Random(salt), b"big", m, real, data, dialect) + b"\0" * 1024
     img = d / ("big%s.sqfs" % tag)
     env = ctx.san_env()
-    r = vlib.sh([str(tools["tar2sqfs"]), "-q", "-f", "-j", "1", str(img)], input=arc, env=env, timeout=1800, text=False)
+    r = sh_t([str(tools["tar2sqfs"]), "-q", "-f", "-j", "1", str(img)], input=arc, env=env, timeout=1800, text=False)
     if r.returncode != 0:
         return "tar2sqfs fails on a %s sparse member with map %s, size %d: exit %d %s" % (dialect, m, real, r.returncode, r.stderr.decode("latin1")[-200:])
     p = subprocess.Popen([str(tools["rdsquashfs"]), "-c", "big", str(img)], env=env, stdout=subprocess.PIPE, stderr=subprocess.DEVNULL)
@@ -1714,7 +1726,7 @@ def big_sparse_verdict(ctx, tools, d, tag, dialect, salt=0):
 def cut_verdict(ctx, tools, d, tag, arc, what):
     """tar2sqfs on an archive that ends inside a member must fail (non-zero exit status); None if it does"""
     img = d / ("cut%s.sqfs" % tag)
-    r = vlib.sh([str(tools["tar2sqfs"]), "-q", "-f", "-j", "1", str(img)], input=arc, env=ctx.san_env(), timeout=1800, text=False)
+    r = sh_t([str(tools["tar2sqfs"]), "-q", "-f", "-j", "1", str(img)], input=arc, env=ctx.san_env(), timeout=1800, text=False)
     try:
         img.unlink()
     except OSError:
@@ -2019,11 +2031,11 @@ def unit_sqfs2tar(ctx, harness, stats):
             wd.mkdir(exist_ok=True)
             pf = wd / "pack.txt"
             pf.write_bytes(s2t_pack_file(nodes, wd).encode("latin1"))
-            r = vlib.sh([str(tools["gensquashfs"]), "-q", "-f", "-F", str(pf), str(img)], env=env, timeout=1800, text=False)
+            r = sh_t([str(tools["gensquashfs"]), "-q", "-f", "-F", str(pf), str(img)], env=env, timeout=1800, text=False)
             how = {"pack_file": pf.read_text(errors="replace")}
         else:
             arc = s2t_archive(rng, nodes, root)
-            r = vlib.sh([str(tools["tar2sqfs"]), "-q", "-f", "-j", "1", str(img)], input=arc, env=env, timeout=1800, text=False)
+            r = sh_t([str(tools["tar2sqfs"]), "-q", "-f", "-j", "1", str(img)], input=arc, env=env, timeout=1800, text=False)
             how = {"archive_hex": tok(arc)}
         if r.returncode != 0:
             stats["disagreements_checked"] += 1
@@ -2052,7 +2064,7 @@ def unit_sqfs2tar(ctx, harness, stats):
             argv += (["--keep-as-dir"] if so["keep"] else []) + (["--no-xattr"] if so["X"] else []) + (["--no-hard-links"] if so["L"] else []) + \
                 (["--no-skip"] if so["s"] else [])
             argvb = [a.encode("latin1") for a in argv]
-            r = vlib.sh([str(tools["sqfs2tar"]).encode()] + argvb + [str(img).encode()], env=env, timeout=1800, text=False)
+            r = sh_t([str(tools["sqfs2tar"]).encode()] + argvb + [str(img).encode()], env=env, timeout=1800, text=False)
             if any(any(q != p and q.rsplit(b"/", 1)[0:-1] == p.rsplit(b"/", 1)[0:-1] and q.startswith(p) for q in nodes) for p in so["subdirs"]):
                 hist["subdir_with_name_extending_sibling"] += 1
             cases.append((ii, so, argv, rootd, listing, r, how))
